@@ -25,14 +25,21 @@ STORAGE_BASE_FUNCS = [SBB + n for n in ("is_memoized", "is_all_memoized", "get_m
 
 CODEC_FUNCS = ["storage_base:Codec.BlobStrategy.store", "storage_base:Codec.NullStrategy.store"]
 
+MB = "storage_memory:MemoryStorageBackend."
+MEMORY_BACKEND_FUNCS = [MB + n for n in ("__init__", "_get_memento_key", "get_mementos", "is_memoized", "is_all_memoized", "read_result", "list_functions", "memoize",
+                                         "forget_call", "forget_everything", "write_metadata", "read_metadata")]
+
 prop("C05",
      modules=["storage", "codec"],
-     functions=MEMORY_CACHE_FUNCS + STORAGE_BASE_FUNCS + CODEC_FUNCS,
+     functions=MEMORY_CACHE_FUNCS + STORAGE_BASE_FUNCS + CODEC_FUNCS + MEMORY_BACKEND_FUNCS,
+     function_modules={f: ["membackend"] for f in MEMORY_BACKEND_FUNCS},
      design_ref="DESIGN.md section 6, C05",
      trusted=["history induction (DESIGN 3.3) over the per-operation refinement contracts",
               "interface contracts of MetadataSource / DataSource / Codec are assumed at this level (abstract methods)"],
      assumptions=["qualified names contain no '/', so 'qn/hash' keys the dictionary of (function, argument hash) pairs",
                   "no I/O fault occurs inside an operation (faults are C08's subject): after an OSError the coherence invariant is not claimed",
+                  "memory backend: forget_function, list_mementos and the 'every live function is listed' direction of list_functions are not under contract; "
+                  "the three maps and the rows of the two defaultdicts are separate objects (representation invariant REP, established by __init__ and preserved by every method under contract)",
                   "read_result is called with the memento currently stored for that call"],
      )
 
@@ -49,8 +56,10 @@ prop("C19",
      functions=[SBB + n for n in ("memoize", "forget_call", "forget_everything", "forget_function", "write_metadata", "is_memoized", "read_result", "get_mementos")]
      + ["storage_null:NullStorageBackend." + n for n in ("get_mementos", "is_memoized", "is_all_memoized", "list_functions", "read_result", "read_metadata", "memoize")]
      + ["runner_null:NullRunnerBackend.batch_run", "storage:StorageBackend.__init__",
-        "storage_filesystem:FilesystemStorageBackend.__init__@config-only", "storage_memory:MemoryStorageBackend.__init__@config-only"],
-     function_modules={"storage_filesystem:FilesystemStorageBackend.__init__@config-only": ["config"], "storage_memory:MemoryStorageBackend.__init__@config-only": ["config"]},
+        "storage_filesystem:FilesystemStorageBackend.__init__@config-only", "storage_memory:MemoryStorageBackend.__init__@config-only"]
+     + [MB + n for n in ("memoize", "forget_call", "forget_everything", "write_metadata", "get_mementos", "is_memoized", "read_result")],
+     function_modules=dict({"storage_filesystem:FilesystemStorageBackend.__init__@config-only": ["config"], "storage_memory:MemoryStorageBackend.__init__@config-only": ["config"]},
+                           **{MB + n: ["membackend"] for n in ("memoize", "forget_call", "forget_everything", "write_metadata", "get_mementos", "is_memoized", "read_result")}),
      design_ref="DESIGN.md section 6, C19",
      assume_props=["C05"],
      trusted=["clauses tagged C05 (cache/store coherence) are assumed here and proved by the C05 check over the same functions",
